@@ -38,8 +38,8 @@ MUTANTS = {
         m('mul-in-place', ST, r'def __mul__\(self, other\):\n        new = self\.copy\(\)', 'def __mul__(self, other):\n        new = self', 'Stream.__mul__'),
         m('mix-append-twice', IX, E('            elif ichemicals is chemicals:\n                sc_data.append(idata)'), '            elif ichemicals is chemicals:\n                sc_data.append(idata)\n                sc_data.append(idata)', 'ChemicalIndexer.mix_from'),
         m('mix-drop-inlet', IX, E('            elif ichemicals is chemicals:\n                sc_data.append(idata)'), '            elif ichemicals is chemicals:\n                pass', 'ChemicalIndexer.mix_from'),
-        m('mix-wrong-family', IX, E('                if chemicals is ichemicals:\n                    for i, j in zip(i._phases, idata.rows):\n                        scp_data[i].append(j)'),
-          '                if chemicals is not ichemicals:\n                    for i, j in zip(i._phases, idata.rows):\n                        scp_data[i].append(j)', 'MaterialIndexer.mix_from'),
+        m('mix-wrong-family', IX, E('            if chemicals is ichemicals:\n                for i, j in zip(i._phases, idata.rows):\n                    scp_data[i].append(j)'),
+          '            if chemicals is not ichemicals:\n                for i, j in zip(i._phases, idata.rows):\n                    scp_data[i].append(j)', 'MaterialIndexer.mix_from'),
         m('mix-consume-twice', IX, E('        data.mix_from(sc_data)\n'), '        data.mix_from(sc_data)\n        data.mix_from(sc_data)\n', 'ChemicalIndexer.mix_from'),
         m('sparse-mix-clear-unguarded', SP, E('            if repeated == 0:\n                dct.clear()'), '            if repeated >= 0:\n                dct.clear()', 'SparseVector.mix_from'),
         m('sparse-copy-like-no-guard', SP, E('        if dct is other.dct: return\n        dct.clear()'), '        dct.clear()', 'SparseVector.copy_like'),
@@ -109,7 +109,7 @@ MUTANTS = {
         m('wt-basis-multiply', RX, E("        if self._basis == 'wt': Hfs = Hfs / self.MWs"), "        if self._basis == 'wt': Hfs = Hfs * self.MWs", 'Reaction.dH'),
     ],
     'C07': [
-        m('swap-tuple', CH, E('ldata = (Cn_l, H_int_T_ref_to_Tm_s, Hfus, Tm, H_ref)'), 'ldata = (Cn_l, Hfus, H_int_T_ref_to_Tm_s, Tm, H_ref)', 'ref=s'),
+        m('swap-tuple', CH, E('ldata = (Cn_l, H_int_T_ref_to_Tm_s, Hfus, Tm, H_ref)'), 'ldata = (Cn_l, H_int_T_ref_to_Tm_s, Tm, Hfus, H_ref)', 'ref=s'),
         m('wrong-integral-bounds', CH, E('H_int_Tm_to_Tb_l = Cn_l.T_dependent_property_integral(Tm, Tb)'), 'H_int_Tm_to_Tb_l = Cn_l.T_dependent_property_integral(Tb, Tm)', 'Chemical._init_energies'),
         m('functor-sign', FE, E('return H_ref - H_int_Tb_to_T_ref_g - Hvap_Tb + Cn_l.T_dependent_property_integral(Tb, T)'), 'return H_ref - H_int_Tb_to_T_ref_g + Hvap_Tb + Cn_l.T_dependent_property_integral(Tb, T)', 'ref=g'),
         m('gas-entropy-P', FE, E('def Gas_Entropy_Ref_Gas(T, P, Cn_g, T_ref, P_ref, S0):\n    return S0 + Cn_g.T_dependent_property_integral_over_T(T_ref, T) - R*log(P/P_ref)'), 'def Gas_Entropy_Ref_Gas(T, P, Cn_g, T_ref, P_ref, S0):\n    return S0 + Cn_g.T_dependent_property_integral_over_T(T_ref, T) + R*log(P/P_ref)', 'ref=g'),
